@@ -273,6 +273,8 @@ func gen(rw bool) func(rng *rand.Rand, tier string) []string {
 	return func(rng *rand.Rand, tier string) []string {
 		maxLocks, steps := 6, 10+rng.Intn(16)
 		if tier == "thorough" {
+			// more and somewhat longer scenarios, not more concurrency: the cost of deciding trace
+			// inclusion grows steeply with the number of simultaneously pending calls
 			maxLocks, steps = 8, 15+rng.Intn(40)
 		}
 		var out []string
